@@ -300,8 +300,11 @@ def check_property(pid, tier, seed, only=None):
                 samples.append({"obligation": o.id, "witness_args": tc[0], "witness_kwargs": tc[1], "observed": info.get("detail")})
 
     # ---- report
+    seen_f = {}
     for fid, f, args, info in known_hits:
-        log(f"KNOWN-FINDING: property={pid} {fid}: {f.get('what', '')} [witness {args}]")
+        seen_f.setdefault(fid, []).append(args)
+    for fid, wl in seen_f.items():
+        log(f"KNOWN-FINDING: property={pid} {fid}: {findings[fid].get('what', '')} [reproduced by {len(wl)} obligation(s); first witness {wl[0]}]")
     for o, args, info, rp in violations:
         log(f"VIOLATION property={pid} replay={rp}")
         log(f"  obligation {o.id}: {o.desc}")
